@@ -284,6 +284,54 @@ def check_sat(assertions, timeout_ms=10000, want_model=True, fallback=True):
     """Decide satisfiability of the conjunction of `assertions` (z3 BoolRefs).
     Portfolio, in order: z3 on the nonlinear abstraction (unsat only) -> z3 (short) -> cvc5 -> z3 (full budget) -> z3 4.8."""
     t0 = time.time()
+    # hypothesis filtering: dropping hypotheses is sound for 'unsat'. Quantified hypotheses (invariants, frame axioms)
+    # put z3 into its slow quantifier mode, so first try with the quantifier-free ones only.
+    try:
+        qf = [a for a in assertions[:-1] if not _contains_quantifier(a)] + [assertions[-1]] if assertions else []
+        if assertions and len(qf) < len(assertions):
+            r0 = _core_check(qf, min(4000, timeout_ms), want_model=False, allow_sat=False)
+            if r0 is not None:
+                return r0[0], r0[1], r0[2] + "(qf-hyps)", time.time() - t0
+    except z3.Z3Exception:
+        pass
+    return _core_check(assertions, timeout_ms, want_model, True, fallback, t0)
+
+
+def _contains_quantifier(t):
+    stack = [t]
+    visited = set()
+    while stack:
+        x = stack.pop()
+        k = x.get_id()
+        if k in visited:
+            continue
+        visited.add(k)
+        if z3.is_quantifier(x):
+            return True
+        if z3.is_app(x):
+            stack.extend(x.children())
+        if len(visited) > 100000:
+            return True
+    return False
+
+
+def _core_check(assertions, timeout_ms, want_model=True, allow_sat=True, fallback=True, t0=None):
+    """Portfolio on a fixed assertion set. With allow_sat=False only an 'unsat' answer is returned (else None)."""
+    t0 = t0 or time.time()
+    if not allow_sat:
+        try:
+            simp = [z3.simplify(a, som=False) for a in assertions]
+            abstracted, napps = abstract_nl(simp)
+        except Exception:
+            napps = 0
+        if napps:
+            ra, sa, dta = _z3_check(abstracted, timeout_ms, "z3+nl-abstraction")
+            if ra == z3.unsat:
+                return "unsat", None, "z3+nl-abstraction", dta
+        r, s_, dt = _z3_check(assertions, timeout_ms)
+        if r == z3.unsat:
+            return "unsat", None, "z3", dt
+        return None
     try:
         simp = [z3.simplify(a, som=False) for a in assertions]
         abstracted, napps = abstract_nl(simp)
